@@ -203,6 +203,10 @@ func general(g *idx.Gen, kind string, thorough bool) {
 	if fam == 2 {
 		g.Regimes["ipv4_ipv6_mixed"]++
 	}
+	smallAlphabet := r.Chance(1, 3)
+	if smallAlphabet {
+		g.Regimes["hosts_small_byte_alphabet"]++
+	}
 	g.Emit("new")
 	type src struct {
 		f string
@@ -218,6 +222,22 @@ func general(g *idx.Gen, kind string, thorough bool) {
 			c, s = idx.Addr6(a), idx.Addr6(b)
 		} else {
 			c, s = idx.Addr4(a), idx.Addr4(b)
+		}
+		if smallAlphabet {
+			// addresses over a tiny byte alphabet: an address is then often an UNALIGNED substring of the
+			// concatenated host table (tail of one stored host + head of the next)
+			mk := func() []byte {
+				n := 4
+				if six {
+					n = 16
+				}
+				b := make([]byte, n)
+				for j := range b {
+					b[j] = lib.Pick(r, []byte{0, 0, 1, 10})
+				}
+				return b
+			}
+			c, s = mk(), mk()
 		}
 		o := opt
 		// reference second moves in both directions over the set
